@@ -154,6 +154,12 @@ class ForwardMonitor(Monitor):
                 except Exception as e:
                     rep("gap_raises:" + type(e).__name__, {"path": list(path), "side": side, "error": repr(e)[:300]})
                     continue
+                try:
+                    if g1._impl._root is not ir1 or g1._impl.anchor()._root is not ir1:
+                        rep("wrong_root", {"path": list(path), "what": "gap", "side": side})
+                        continue
+                except Exception:
+                    pass
                 if id(s) in new_ids and a1 is s:
                     if g1._impl.type() != g0._impl.type():
                         rep("gap_side_changed", {"path": list(path), "side": side})
@@ -196,10 +202,14 @@ class ForwardMonitor(Monitor):
             parent = _node_at(ir0, par) if par else ir0
             lst = getattr(parent, attr)
             L = len(lst)
-            ranges = {(0, L), (0, 1), (L - 1, L)}
-            if L >= 2:
-                ranges.add((0, L - 1))
-                ranges.add((1, L))
+            if L <= 5:
+                ranges = {(a, b) for a in range(L) for b in range(a + 1, L + 1)}
+            else:
+                ranges = {(0, L), (0, 1), (L - 1, L), (0, L - 1), (1, L)}
+                for _ in range(8):
+                    a = ctx.rng.randrange(L)
+                    b = ctx.rng.randrange(a + 1, L + 1)
+                    ranges.add((a, b))
             for lo, hi in sorted(ranges):
                 if lo >= hi:
                     continue
@@ -223,6 +233,29 @@ class ForwardMonitor(Monitor):
                     rep("block_raises:" + type(e).__name__, {"path": list(map(list, par)), "attr": attr, "range": [lo, hi], "error": repr(e)[:300]})
                     continue
                 mids = {id(m) for m in members}
+                try:
+                    if isinstance(impl, IC.Block) and (impl._root is not ir1 or impl._anchor._root is not ir1):
+                        rep("wrong_root", {"path": list(map(list, par)), "what": "block", "range": [lo, hi]})
+                        continue
+                except Exception:
+                    pass
+                # where does the forwarded block sit?
+                try:
+                    new_list = (tuple(impl._anchor._path), impl._attr) if isinstance(impl, IC.Block) else None
+                    new_span = (impl._range.start, impl._range.stop) if isinstance(impl, IC.Block) else None
+                except Exception:
+                    new_list = new_span = None
+
+                def still_in_span(obj):
+                    """the member lives in the forwarded block's own statement list, inside or
+                    adjacent to the forwarded range: it was permuted, not moved away"""
+                    if new_list is None:
+                        return False
+                    for p in new_ids.get(id(obj), ()):
+                        if tuple(p[:-1]) == new_list[0] and p[-1][0] == new_list[1] and new_span[0] - 1 <= p[-1][1] <= new_span[1]:
+                            return True
+                    return False
+
                 lost = [
                     k
                     for k in range(lo, hi)
@@ -234,7 +267,7 @@ class ForwardMonitor(Monitor):
                     # an *interior* member that left the block (moved elsewhere) mirrors an
                     # interior deletion, which shrinks the block: accepted, as the
                     # repository's own tests pin it (test_move_forwarding_for_blocks_*)
-                    and (k == lo or k == hi - 1)
+                    and (k == lo or k == hi - 1 or still_in_span(lst[k]))
                 ]
                 if lost:
                     rep(
@@ -397,12 +430,13 @@ class PurityMonitor(Monitor):
         ir = p._loopir_proc
         st = irutil.all_stmts(ir)
         if st:
-            path, node = self.ctx.rng.choice(st)
-            try:
-                self.cursors.append((PC.lift_cursor(IC.Node(ir, list(path)), p), node))
-            except Exception:
-                pass
-            self.cursors = self.cursors[-12:]
+            for _ in range(3):
+                path, node = self.ctx.rng.choice(st)
+                try:
+                    self.cursors.append((PC.lift_cursor(IC.Node(ir, list(path)), p), node))
+                except Exception:
+                    pass
+            self.cursors = self.cursors[-24:]
 
     def check(self, sess, step, phase):
         ctx = self.ctx
@@ -414,6 +448,22 @@ class PurityMonitor(Monitor):
                 bad = {"what": "fingerprint", "proc": name}
                 self.registry[key] = (ir, fp2, name)
                 break
+        if bad is None and phase == "accepted":
+            # forwarding is a query: it must not alter the cursor that is forwarded
+            for cur, node in self.cursors:
+                try:
+                    saved = [tuple(x) for x in getattr(cur._impl, "_path", [])]
+                    ctx.stat("purity.forward_queries")
+                    try:
+                        sess.cur.forward(cur)
+                    except Exception:
+                        pass
+                    now = [tuple(x) for x in getattr(cur._impl, "_path", [])]
+                    if now != saved:
+                        bad = {"what": "cursor_changed_by_forwarding", "before": [list(x) for x in saved], "after": [list(x) for x in now]}
+                        break
+                except Exception:
+                    pass
         if bad is None:
             for cur, node in self.cursors:
                 ctx.stat("purity.cursor_checks")
